@@ -65,6 +65,8 @@ pub struct WirePeer {
     pub conn: u64,
     pub state: WireState,
     pub inbox: Deserializer<MAX_INBOX_SIZE, Frame<Message>>,
+    /// the bytes in `inbox` that no frame has consumed yet (the decoder drains them out of reach)
+    pub shadow: Vec<u8>,
     /// open initiator streams: stream number -> task id
     pub streams: BTreeMap<u64, u64>,
     pub next_stream: u64,
